@@ -459,6 +459,46 @@ impl Property for C07 {
             events.push(Ev::In(Inbound::Publish { qos: 0, dup: false, retain: false, pid: 0, target: Target::Two(at(n - 1), at(0)), payload_len: 1, props: 0 }));
             v.push(Scenario { receive_max: None, max_packet_size: None, id_offset: 0, prologue: 0, events });
         }
+        // a consumer that lags: backlogs around every power of two up to 4096 (8192 in the
+        // thorough tier) build up while the stream is not polled - before and after stream() is
+        // called - next to a second subscription that keeps up
+        let mut sizes = vec![];
+        let top = if tier == Tier::Thorough { 13 } else { 12 };
+        for p in 5..=top {
+            for d in [-1i64, 0, 1, 2] {
+                sizes.push(((1i64 << p) + d) as usize);
+            }
+        }
+        for (k, n) in sizes.into_iter().enumerate() {
+            if k % workers != worker {
+                continue;
+            }
+            let ok = Deco::default();
+            let mut events = vec![
+                Ev::Start { h: 0, kind: OpKind::Sub(0), settle: false, solo: false },
+                Ev::In(Inbound::Ack { sel: 65535, deco: ok }),
+                Ev::Start { h: 0, kind: OpKind::Sub(0), settle: false, solo: false },
+                Ev::In(Inbound::Ack { sel: 65535, deco: ok }),
+                Ev::MakeStream { sel: 65535 }, // the second subscription's stream
+            ];
+            let early_stream = k % 2 == 0;
+            if early_stream {
+                events.push(Ev::MakeStream { sel: 0 });
+            }
+            for i in 0..n {
+                events.push(Ev::In(Inbound::Publish { qos: (i % 3) as u8, dup: false, retain: false, pid: 0, target: Target::Sub(0), payload_len: 1, props: 0 }));
+                if i % 64 == 0 {
+                    events.push(Ev::In(Inbound::Publish { qos: 0, dup: false, retain: false, pid: 0, target: Target::Sub(65535), payload_len: 1, props: 0 }));
+                    events.push(Ev::PollStream { sel: 0 });
+                }
+            }
+            if !early_stream {
+                events.push(Ev::MakeStream { sel: 0 });
+            }
+            // one more message after the backlog, then everything is drained at the end
+            events.push(Ev::In(Inbound::Publish { qos: 1, dup: false, retain: false, pid: 0, target: Target::Sub(0), payload_len: 2, props: 0 }));
+            v.push(Scenario { receive_max: None, max_packet_size: None, id_offset: 0, prologue: 0, events });
+        }
         Box::new(v.into_iter())
     }
 
